@@ -78,8 +78,12 @@ CLAIMED = {
         "Coq theorems: a link resolves to the address it was given (alias, not copy), creating it changes no attribute, a write "
         "through one path is read through every other path to that address, a refused append changes nothing. Tie: alias "
         "histories with equal names in different blocks, attribute writes through link-obtained handles read back through the "
-        "owning container, foreign/wrong-kind appends; trace predicate: no member list/reference/feature leaves its block. The "
-        "dimension-link clauses (ticks from a linked array) are not yet modelled.",
+        "owning container, foreign/wrong-kind appends; trace predicate: no member list/reference/feature leaves its block. "
+        "Dimension links: theorems over the dimension-link machine (Pure/DimLink.v) - a linked range dimension reports the target's "
+        "CURRENT vector, unit and label after any later writes to the target, a linked set dimension the vector as its labels; a "
+        "unit/label set through the dimension is set on the target; accepted ticks remove the link and read back, an accepted link "
+        "removes the stored ticks - tied by dimension histories (every class of index specification, unlink, reopen) with stored "
+        "fields and reported values compared after every call. DataFrame links are not modelled.",
         "Trusted: see evidence.trusted_base.",
         "DESIGN.md section 5 C05", TECH),
     "C12": (
@@ -88,8 +92,11 @@ CLAIMED = {
         "setters a refused call leaves the store EQUAL to what it was; for nested create_source/create_section/create_property equal "
         "up to one empty, unreadable container group; lookups never write. create_feature is refuted with a witness (known "
         "finding). Tie: histories with a malformed-argument stream and retries; trace predicate walk-digest-before = after for "
-        "every refused call of the implementation.",
-        "Trusted: see evidence.trusted_base. Call sites on dimension descriptors, data writes and data frames are not yet modelled.",
+        "every refused call of the implementation. Dimension calls (ticks, link_data_array, labels, remove_link): every refused "
+        "call returns the state it was given, with the exact refusal conditions (Pure/DimLink.v), tied by dimension histories in "
+        "which all stored fields and reported values are compared before/after every refusal.",
+        "Trusted: see evidence.trusted_base. Refusals of data writes are covered by C01 (arrays), C10 (values), C16 (data frames); "
+        "DataFrame dimension links are not modelled.",
         "DESIGN.md section 5 C12", TECH),
     "C19": (
         "Coq theorems: (calendar) every whole second in [1970, 2100) survives time_to_str then str_to_time - the day<->civil part "
